@@ -122,7 +122,7 @@ func init() {
 	register(&propertySpec{
 		ID:      "C09",
 		Explain: "Static rules for isolation between locations: the ancestor walk is bounded (visited set), storage calls use the state's own namespace, the shared cron keys jobs by location, and the set of written package-level variables is frozen. Does not decide non-interference of results, that exactly the transitive parents' facts are seen, or immediacy of parent changes.",
-		Rules:   []ruleFn{ruleTerm("C09"), ruleAncSelfLast, ruleAncPath, ruleAncRestore, ruleNsArg, ruleCronKey("C09"), ruleGlobals, ruleParentsValue("C09"), ruleCopyEmpty("C09"), ruleAncOnce("C09"), ruleCtxEntry, ruleCtxScript, ruleCroltEscape("C09"), ruleCtxPerGoroutine("C09"), ruleCronKeyInj("C09")},
+		Rules:   []ruleFn{ruleTerm("C09"), ruleAncSelfLast, ruleAncPath, ruleAncRestore, ruleNsArg, ruleCronKey("C09"), ruleGlobals, ruleParentsValue("C09"), ruleCopyEmpty("C09"), ruleAncOnce("C09"), ruleCtxEntry, ruleCtxScript, ruleCroltEscape("C09"), ruleCtxPerGoroutine("C09"), ruleCronKeyInj("C09"), ruleStateFresh("C09")},
 	})
 }
 
